@@ -99,6 +99,15 @@ func registerMisc() {
 		p := m.newStructPtr("time", "Time", map[string]value{"ext": int64(63_800_000_000) + m.clock})
 		return (*p).(structure)
 	}
+	// timers never fire in the engine (wall-clock time is not modelled)
+	externals["time.NewTimer"] = func(m *Machine, fr *frame, a []value) value {
+		return m.newStructPtr("time", "Timer", map[string]value{"C": &Chan{cap: 1}})
+	}
+	externals["(*time.Timer).Stop"] = func(m *Machine, fr *frame, a []value) value { return true }
+	externals["(*time.Timer).Reset"] = func(m *Machine, fr *frame, a []value) value { return true }
+	externals["time.AfterFunc"] = func(m *Machine, fr *frame, a []value) value {
+		return m.newStructPtr("time", "Timer", map[string]value{})
+	}
 	externals["time.now"] = func(m *Machine, fr *frame, a []value) value {
 		return tuple{int64(1700000000), int64(0), int64(1)}
 	}
